@@ -196,6 +196,16 @@ Theorem C14_meas_repeat : forall n p c1 c2 t, p < n -> valid n t ->
 Proof. exact meas_repeat. Qed.
 Print Assumptions C14_meas_repeat.
 
+(* a full stabilizer state (n valid generators on n qubits) stays one: in place on n qubits, destructively on n-1 *)
+Theorem C14_meas_inplace_full : forall n p coin t, p < n -> valid n t -> length t = n ->
+  let m := measure n p true coin t in snd (fst m) = n /\ valid n (snd m) /\ length (snd m) = n.
+Proof. exact meas_inplace_full. Qed.
+Print Assumptions C14_meas_inplace_full.
+Theorem C14_meas_destructive_full : forall n p coin t, p < n -> valid n t -> length t = n ->
+  let m := measure n p false coin t in snd (fst m) = n - 1 /\ valid (n - 1) (snd m) /\ length (snd m) = n - 1.
+Proof. exact meas_destructive_full. Qed.
+Print Assumptions C14_meas_destructive_full.
+
 (* non-vacuity: GHZ (random branch, destructive result computed), |0>|1> (deterministic, outcome 1), repeat *)
 Theorem C14_nonvacuous_ghz :
   1 < 3 /\ valid 3 ghz3 /\ length ghz3 = 3 /\ random_branch 3 1 ghz3 = true /\
